@@ -81,6 +81,7 @@ def prog_case(pid, obs, uncompute):
     c06 = "None"
     if uncompute and obs["ret"][0] == "bool" and len(rets) == 1 and rets[0][1] >= st.n:
         c06 = f"(Some ({C.cnat(rets[0][0])}, {C.cnat(rets[0][1])}))"
+    # (an output that sits ON an argument qubit cannot be an xor-oracle: reported by the caller)
     return "(mkprog %s %s %s %s %s %s %s %s %s)" % (
         C.cN(pid), C.cnat(st.n), C.cnat(nq), circuit_coq(obs["gates"]), d,
         C.clist(["(%s, %s)" % (C.cnat(s), C.cnat(q)) for s, q in rets]),
@@ -154,6 +155,8 @@ def collect(tier, seed):
             n = progs.n_input_bits(obs)
             rec["n"] = n
             rec["unmapped"] = [r for r in obs["ret"][1] if r not in dict(obs["qubit_map"])]
+            qm = dict(obs["qubit_map"])
+            rec["out_on_input"] = [r for r in obs["ret"][1] if r in qm and qm[r] < n]
             if n > MAX_IN_BITS or len(obs["gates"]) > MAX_GATES:
                 rec["skipped"] = "too large for the exhaustive tables"
             else:
